@@ -884,4 +884,39 @@ def patch_state(repo: Repo) -> RuleRun:
 patch_state.rule_id = "C12.PATCH-STATE"
 
 
-RULES = [clear_complete, grade_idempotent, lockstep_filter, backport_map, delete_skip, assemble_walk, backport_owns_points, no_class_state, no_stale_lazy_cache, empty_patch, neighbour_untouched, exact_moves, grade_replay, labels_private, geometry_redeclared, patch_state]
+def writers_pure(repo: Repo, prop: str = PROP, rule: str = "C12.WRITERS-PURE") -> RuleRun:
+    """'... writing the same mesh a second time produces the same file' and 'patch types and settings changed through the mesh'
+    survive: producing the text of a section reads the model. A `description` / `format_*` member that assigns or mutates an
+    attribute of its own object (dropping the patches that are empty at the moment, say) changes what the NEXT assembly and the
+    next file are made from. Interprocedural may-mutate analysis of every description property and format method."""
+    from ..effects import Effects
+
+    eff = Effects(repo)
+    r = RuleRun(prop, rule, floor=10, what="no description property / format method of the mesh lists and items changes an attribute of its own object")
+    n = 0
+    for fn in sorted(repo.all_functions(), key=lambda f_: f_.qualname):
+        short = fn.module.name.split("classy_blocks.")[-1]
+        if fn.cls is None or not (short.startswith("lists.") or short.startswith("items.") or short.startswith("grading.") or short == "mesh"):
+            continue
+        if not (fn.name == "description" or fn.name.startswith("format_")):
+            continue
+        n += 1
+        muts = sorted(eff.mutated_self_attrs(fn))
+        stores = sorted({t.attr for x in ast.walk(fn.node) if isinstance(x, (ast.Assign, ast.AugAssign)) for t in (x.targets if isinstance(x, ast.Assign) else [x.target]) if isinstance(t, ast.Attribute) and fn.params and attr_chain(t.value) == fn.params[0]})
+        changed = sorted(set(muts) | {f"self.{a}" for a in stores})
+        r.check(
+            not changed,
+            fn,
+            f"{fn.qualname}: reads only",
+            f"{fn.qualname} changes {changed} while producing text: what is written now alters the model the next assembly / file is made from (a patch that is empty at the moment loses its type and settings for good)",
+            fn.node,
+            key="pure",
+        )
+    r.require(n >= 10, f"only {n} description / format members found")
+    return r
+
+
+writers_pure.rule_id = "C12.WRITERS-PURE"
+
+
+RULES = [clear_complete, grade_idempotent, lockstep_filter, backport_map, delete_skip, assemble_walk, backport_owns_points, no_class_state, no_stale_lazy_cache, empty_patch, neighbour_untouched, exact_moves, grade_replay, labels_private, geometry_redeclared, patch_state, writers_pure]
